@@ -20,7 +20,7 @@ SOFT = {"quick": 50.0, "thorough": 900.0}
 REQUIRED = ["map:translate", "map:rotate", "map:scale", "map:mirror", "via:method", "via:transform-list", "origin:none",
             "origin:given", "judged:vertices", "judged:edges", "judged:copy-independent", "judged:arguments-unchanged",
             "judged:direct-curve", "judged:constructor-arrays", "judged:copy-projected-original-unchanged", "history:assembled-before-the-transformation",
-            "judged:built-in-geometry-follows", "judged:centre-follows", "judged:transformation-objects-unchanged", "entity:shape", "entity:operation", "entity:sketch", "entity:stack", "composition:2+"]
+            "judged:built-in-geometry-follows", "judged:centre-follows", "judged:transformation-objects-unchanged", "judged:helper-functions-direct", "entity:shape", "entity:operation", "entity:sketch", "entity:stack", "composition:2+"]
 MIN_KEYS = 80
 RULE = (
     "entity zoo (Point, Face / Loft carrying each edge kind, Box / Extrude / Revolve / Wedge, curves (discrete, linear / spline "
@@ -472,6 +472,44 @@ def labels_defined(ctx, c, tag, what):
 
 
 # ------------------------------------------------------------------------------------------------ judge
+def helpers_leave_their_arguments(ctx, maps):
+    """the transformation helpers of util.functions, called directly with non-unit float arrays: results as in geometry,
+    arguments bit-identical afterwards"""
+    from classy_blocks.util import functions as f
+
+    p = np.array([0.7, -1.9, 2.3])
+    for m in maps:
+        k = m["k"]
+        if k == "translate":
+            continue
+        origin = np.array(m["origin"] if m.get("origin") is not None else [0.3, 0.1, -0.2], dtype=float)
+        args = [p.copy(), origin]
+        if k == "rotate":
+            axis = np.array(m["axis"], dtype=float)
+            args.append(axis)
+            got = f.rotate(args[0], m["angle"], axis, origin)
+            f.rotation_matrix(axis, m["angle"])
+            want = geom.rotate(p, m["axis"], m["angle"], origin)
+        elif k == "scale":
+            got = f.scale(args[0], m["ratio"], origin)
+            want = geom.scale(p, m["ratio"], origin)
+        else:
+            normal = np.array(m["normal"], dtype=float)
+            args.append(normal)
+            got = f.mirror(args[0], normal, origin)
+            want = geom.reflect(p, m["normal"], origin)
+        ctx.count("judged:helper-functions-direct")
+        snap = [p, origin] + ([np.array(m["axis"], dtype=float)] if k == "rotate" else [np.array(m["normal"], dtype=float)] if k == "mirror" else [])
+        for a, b in zip(args, snap):
+            if not np.array_equal(a, b):
+                ctx.violation(f"helper-modifies-its-argument:functions.{k}", f"functions.{k}: argument {b.tolist()} became {a.tolist()}")
+                return False
+        if not (float(np.linalg.norm(np.array(got, dtype=float) - want)) <= 1e-9 * (1 + float(np.linalg.norm(want)))):
+            ctx.violation(f"helper-result:functions.{k}", f"functions.{k}({p.tolist()}, ...) = {np.array(got).tolist()}, geometry {want.tolist()}")
+            return False
+    return True
+
+
 def run_case(ctx, case):
     import classy_blocks as cb
 
@@ -480,6 +518,8 @@ def run_case(ctx, case):
     maps = case["maps"]
     via = case["via"]
     ctx.evaluated()
+    if not helpers_leave_their_arguments(ctx, maps):
+        return
     for m in maps:
         ctx.count(f"map:{m['k']}")
         if m["k"] != "translate":
